@@ -48,7 +48,7 @@ PROPERTIES = {
     },
     "C02": {
         "level": "other",
-        "rules": ["F1", "F2", "F5", "B5", "G3", "G5", "G6", "G7", "F13", "F16", "E2", "E3", "E5", "E6"] + a_rules(PIPE + ALG),
+        "rules": ["F1", "F2", "F5", "F29", "B5", "G3", "G5", "G6", "G7", "F13", "F16", "E2", "E3", "E5", "E6"] + a_rules(PIPE + ALG),
         "explanation": "Decided: the capture pipeline is Compact(Replace(Capture)) and returns that hook's ops (F1); Compact "
                        "replays every buffered op once, in order, then finishes, Replace flushes in order (B5); every op "
                        "constructed or forwarded in compact/replace/capture/common/types takes old-side fields from old-"
@@ -59,7 +59,7 @@ PROPERTIES = {
     "C03": {
         "level": "other",
         "rules": [(r, infn("lcs::make_table", "lcs::diff_deadline")) for r in ("A2", "A3", "A5", "A10")] +
-                 ["G3", "F13", "F17", "F18", "F19", "F14", "F6", ("A7", infn("myers::find_middle_snake"))] +
+                 ["G3", "F13", "F17", "F18", "F19", "F29", "F14", "F6", ("A7", infn("myers::find_middle_snake"))] +
                  a_rules(("algorithms/compact.rs",), ["A4", "A9"]),
         "explanation": "Decided (one necessary condition only): the LCS table is built by reading the sequences through "
                        "positions derived from the requested ranges, and the walk reads the table with the same key slot "
@@ -80,7 +80,7 @@ PROPERTIES = {
     },
     "C05": {
         "level": "other",
-        "rules": ["D1", "F8", "F10", "G2", "G8", "F25", "F7"] + SCRIPT_VALID + a_rules(("udiff.rs", "types.rs", "text/mod.rs", "common.rs")),
+        "rules": ["D1", "F8", "F10", "G2", "G8", "F25", "F27", "F28", "F7"] + SCRIPT_VALID + a_rules(("udiff.rs", "types.rs", "text/mod.rs", "common.rs")),
         "explanation": "Decided: no lossy decoding is reachable from the byte writers and each line is written with "
                        "write_all(as_bytes(value)) (D1: call graph incl. fmt::Display edges); Display and to_writer emit the "
                        "same (guard, template) sequence incl. header-once and missing-newline logic (F8); hunk header extents "
@@ -149,7 +149,7 @@ PROPERTIES = {
     },
     "C12": {
         "level": "other",
-        "rules": ["G8", "F25", ("B4", infile("algorithms/capture.rs"))] + a_rules(("common.rs",), ["A4", "A5", "A7", "A9"]),
+        "rules": ["G8", "F25", "F27", ("B4", infile("algorithms/capture.rs"))] + a_rules(("common.rs",), ["A4", "A5", "A7", "A9"]),
         "explanation": "Decided (one clause only): 'contain every non-Equal op exactly once, unchanged and in order'.  In "
                        "group_diff_ops every DiffOp that is constructed and every op field that is written in place belongs to "
                        "an Equal op; everything pushed into a group is the iterated op itself or a freshly cut Equal piece; "
